@@ -80,6 +80,9 @@ VARIANTS = [
     ('SUMIFS/2x2', '=SUMIFS(U!D1:E2,U!A1:B2,{c})', 'sum_2x2', False),
     ('COUNTIFS/2x2', '=COUNTIFS(U!D1:E2,">1",U!A1:B2,{c})', 'count_2x2', False),
     ('AVERAGEIFS/2x2', '=AVERAGEIFS(U!D1:E2,U!A1:B2,{c},U!D1:E2,"<8")', 'avg_2x2', False),
+    # a criteria range lying in one row and running from a one-letter column into the two-letter columns
+    ('SUMIFS/wide-row', '=SUMIFS(Y150:AB150,Y150:AB150,">0")', 'fixed10', False),
+    ('COUNTIFS/wide-row', '=COUNTIFS(Y150:AB150,">2",Z150:AC150,"<>3")', 'fixed2', False),
     # different sizes: an error, never a number
     ('SUMIFS/short', '=SUMIFS(B1:B{m},A1:A{n},{c})', 'error', False),
     ('SUMIFS/long', '=SUMIFS(B1:B{p},A1:A{n},{c})', 'error', False),
@@ -124,6 +127,7 @@ def build(n, tf=False):
     for i, v in enumerate(TARGET_E):
         cells[f'E{i + 3}'] = v
     cells['C5'] = 9
+    cells.update({'Y150': 1, 'Z150': 2, 'AA150': 3, 'AB150': 4, 'AC150': 5})
     meta = []
     row = 20
     for fi, (fname, ftext, fval) in enumerate(forms):
@@ -239,6 +243,10 @@ def expected(kind, second, vec, crit):
             return len([i for i in sel if TARGET[i] > 1]), sel
         sel = [i for i in sel if TARGET[i] < 8]
         return (sum(TARGET[i] for i in sel) / len(sel) if sel else R.Err('ANY')), sel
+    if kind == 'fixed10':
+        return 10, []
+    if kind == 'fixed2':
+        return 2, []       # Y150:AB150 > 2 at AA150, AB150; their partners AB150 = 4 and AC150 = 5 are both <> 3
     if kind == 'sum_t':
         return sum(TARGET_T[i] for i in sel), sel
     if kind == 'sum_shift':
